@@ -343,12 +343,20 @@ theorem toListFuel_total : ∀ (fuel : Nat) (it : TriPixels), ∃ l, it.toListFu
 
 end TriPixels
 
+theorem triPixelFuel_total (t : Tri) (style : TriStyle) : ∃ n, triPixelFuel t style = some n := by
+  obtain ⟨it, hit⟩ := triScanlines_total t style
+  obtain ⟨l, hl⟩ := TriScanlines.toListFuel_total (3 * ((it.rowsEnd - it.rowsStart).toNat + 1) + 1) it
+  have hl' : it.toList = some l := hl
+  unfold triPixelFuel
+  simp only [hit, hl', Option.bind_eq_bind, Option.bind_some, pure]
+  exact ⟨_, rfl⟩
+
 /-- **`pixels()` of a styled triangle is total** (every stroke width, alignment and fill). -/
 theorem triPixels_total (t : Tri) (style : TriStyle) : ∃ px, triPixels t style = some px := by
-  obtain ⟨bb, hbb⟩ := triStyledBoundingBox_total t style
+  obtain ⟨n, hn⟩ := triPixelFuel_total t style
   obtain ⟨it, hit⟩ := TriPixels.new_total t style
   unfold triPixels
-  simp only [hbb, hit, Option.bind_eq_bind, Option.bind_some]
+  simp only [hn, hit, Option.bind_eq_bind, Option.bind_some]
   exact TriPixels.toListFuel_total _ it
 
 end Joins
